@@ -295,7 +295,7 @@ def analyse(site, funcs):
 
 
 def render():
-    L = ["/-! GENERATED by translate/growth.py from /repo's current sources - do not edit. -/", "namespace Cgreen.Gen.Growth", ""]
+    L = ["import CgreenModel.Lemmas.Loops", "/-! GENERATED by translate/growth.py from /repo's current sources - do not edit. -/", "namespace Cgreen.Gen.Growth", "open Cgreen.Loops", ""]
     thms, problems = [], []
     asts = {}
     for site in SITES:
@@ -348,6 +348,29 @@ def render():
                       f"    {nm}_index_keep n c < c ∧ {post(f'{nm}_count_keep n c', 'c')} := by",
                       f"  intro n c h _ hg; unfold {nm}_index_keep {nm}_count_keep; omega"]
                 thms.append(f"{nm}_keep_in_bounds")
+            # ---- lifted to every history of additions (generic induction: Cgreen.Loops.always_add) ----
+            invA = ("a.n = a.c" if same else "a.n ≤ a.c") + (f" ∧ {site['pre'].replace('c', 'a.c')}" if site["pre"] != "True" else "")
+            L.append(f"def {nm}_inv (a : Arr) : Prop := {invA}")
+            if op != "true":
+                L += [f"def {nm}_enlarges (a : Arr) : Prop := (fun n c : Nat => {guard}) a.n a.c",
+                      f"instance (a : Arr) : Decidable ({nm}_enlarges a) := by unfold {nm}_enlarges; infer_instance",
+                      f"def {nm}_step (a : Arr) : Arr := if {nm}_enlarges a then ⟨{nm}_count_grow a.n a.c, {nm}_newCap a.n a.c⟩ else ⟨{nm}_count_keep a.n a.c, a.c⟩",
+                      f"def {nm}_good (a : Arr) : Prop := ({nm}_enlarges a → {nm}_index_grow a.n a.c < {nm}_allocElems a.n a.c ∧ {nm}_newCap a.n a.c ≤ {nm}_allocElems a.n a.c) ∧ (¬ {nm}_enlarges a → {nm}_index_keep a.n a.c < a.c)"]
+                unf = f"{nm}_enlarges, {nm}_index_grow, {nm}_index_keep, {nm}_allocElems, {nm}_newCap"
+                stepproof = (f"by_cases hg : {nm}_enlarges a <;> (have hg' := hg; simp only [{nm}_enlarges] at hg'; "
+                             f"try simp only [{nm}_step, hg, ↓reduceIte, {nm}_count_grow, {nm}_count_keep, {nm}_newCap]; all_goals omega)")
+            else:
+                L += [f"def {nm}_step (a : Arr) : Arr := ⟨{nm}_count_grow a.n a.c, {nm}_newCap a.n a.c⟩",
+                      f"def {nm}_good (a : Arr) : Prop := {nm}_index_grow a.n a.c < {nm}_allocElems a.n a.c ∧ {nm}_newCap a.n a.c ≤ {nm}_allocElems a.n a.c"]
+                unf = f"{nm}_index_grow, {nm}_allocElems, {nm}_newCap"
+                stepproof = f"(try simp only [{nm}_step, {nm}_count_grow, {nm}_newCap]; all_goals omega)"
+            L += [f"/-- `{site['func']}`: in every state of every history of additions the element written is inside what was allocated and the",
+                  "recorded capacity is not more than what was allocated. -/",
+                  f"theorem {nm}_always : ∀ (k : Nat) (a : Arr), {nm}_inv a → ∀ v ∈ states {nm}_step k a, {nm}_inv v ∧ {nm}_good v :=",
+                  f"  always_add {nm}_inv {nm}_good {nm}_step",
+                  f"    (by intro a ha; unfold {nm}_inv at ha; try simp only [{nm}_good, {unf}]; all_goals omega)",
+                  f"    (by intro a ha; unfold {nm}_inv at *; {stepproof})"]
+            thms.append(f"{nm}_always")
             L.append("")
         except (Unsupported, KeyError, IndexError, TypeError) as e:
             problems.append((site["name"], f"{type(e).__name__}: {e}"))
